@@ -46,6 +46,7 @@ Print Assumptions C19_views_track_parent.
 Theorem C19_copy_call_model_result :
   forall K h c p o',
     apply_cop K h c (OModel p) = Some o' ->
+    match c with CGiven x => o' = x | _ =>
     exists q, o' = OModel q /\
       match c with
       | CCopy => q = p
@@ -58,8 +59,9 @@ Theorem C19_copy_call_model_result :
       | CAddConst c0 => forall s, (energy q s = energy p s + c0)%Qc
       | CAdd j => exists b, model_of h j = Some b /\ forall s, (energy q s = energy p s + energy b s)%Qc
       | CSub j => exists b, model_of h j = Some b /\ forall s, (energy q s = energy p s - energy b s)%Qc
-      | CSet _ | CConcat _ => False
-      end.
+      | CSet _ | CConcat _ | CGiven _ => False
+      end
+    end.
 Proof. exact cop_model_result. Qed.
 Print Assumptions C19_copy_call_model_result.
 
@@ -71,6 +73,7 @@ Theorem C19_copy_call_sampleset_result :
     | CCopy => o' = OSet s
     | CSet o => exists s', apply K o s = Ok s' /\ o' = OSet s'
     | CConcat js => exists l s', sets_of h js = Some l /\ concat_ss l s = Ok s' /\ o' = OSet s'
+    | CGiven x => o' = x
     | _ => False
     end.
 Proof. exact cop_set_result. Qed.
@@ -199,7 +202,8 @@ Print Assumptions C19_neutral_operand_is_a_fresh_equal_object.
 (* ---- the tie to the source: every public method with an `inplace` / `copy` parameter, its default
    and whether it returns self, as GENERATED from dimod's source, is exactly the table the model covers ---- *)
 Theorem C19_copy_api_is_the_modeled_one :
-  gen_copy_api = modeled_copy_api /\ gen_sampleset_functions = modeled_sampleset_functions.
+  gen_copy_api = modeled_copy_api /\ gen_copy_constructors = modeled_copy_constructors
+  /\ gen_sampleset_functions = modeled_sampleset_functions.
 Proof. exact copy_api_matches. Qed.
 Print Assumptions C19_copy_api_is_the_modeled_one.
 
